@@ -21,6 +21,13 @@ func (x *Explorer) Prove(t *Term) bool {
 }
 
 func (x *Explorer) ProveLeq(a, b *Term) bool { // a <= b
+	if x.proveLeqRules(a, b) {
+		return true
+	}
+	return x.depth == 0 && x.linProve(a, b, false)
+}
+
+func (x *Explorer) proveLeqRules(a, b *Term) bool {
 	if a == b {
 		return true
 	}
@@ -179,6 +186,13 @@ func (x *Explorer) ProveLeq(a, b *Term) bool { // a <= b
 }
 
 func (x *Explorer) ProveLt(a, b *Term) bool { // a < b
+	if x.proveLtRules(a, b) {
+		return true
+	}
+	return x.depth == 0 && x.linProve(a, b, true)
+}
+
+func (x *Explorer) proveLtRules(a, b *Term) bool {
 	if x.Prove(x.Lt(a, b)) {
 		return true
 	}
